@@ -52,9 +52,9 @@ def plugin_text(st_):
     extra = ', ["zz", "", %r, [0, inf], "", ""]' % st_["zz"] if st_["zz"] is not None else ""
     mult = "*zz" if st_["zz"] is not None else ""
     return ('from numpy import inf\nname = "plug17"\ntitle = "t"\ndescription = "d"\ncategory = "shape:sphere"\n'
-            'parameters = [["rr", "Ang", %r, [0, inf], "", ""]%s]\nsource = ["plug_lib.c"]\n'
+            'parameters = [["rr", "Ang", %r, [0, inf], "", ""]%s]\nsource = ["%s"]\n'
             'c_code = """\n#ifndef VERIF_K3\n#define VERIF_K3 1.0\n#endif\n"""\n'
-            'Iq = "return %r*helper(q)*VERIF_K3*exp(-q*q*rr*rr)%s;"\n' % (st_["rr_default"], extra, st_["k1"], mult))
+            'Iq = "return %r*helper(q)*VERIF_K3*exp(-q*q*rr*rr)%s;"\n' % (st_["rr_default"], extra, st_.get("libname", "plug_lib.c"), st_["k1"], mult))
 
 
 def lib_text(st_):
@@ -90,7 +90,8 @@ def histories(draw):
                           "dtype": draw(st.sampled_from(["double", "double", "single", "quad"])),
                           "rr": draw(st.sampled_from([None, 8.0, 12.0]))})
     steps.append({"op": "eval", "where": draw(st.sampled_from(["worker", "fresh"])), "dtype": "double", "rr": None})
-    return {"steps": steps}
+    # the included C file sits beside the plugin or in a lib/ subdirectory of its own (as models/lib does)
+    return {"steps": steps, "layout": draw(st.sampled_from(["beside", "lib"]))}
 
 
 class Driver(object):
@@ -121,9 +122,14 @@ def check_history(case, rec):
     base = os.path.join(os.environ.get("TMPDIR", "/tmp"), "c17_case")
     shutil.rmtree(base, ignore_errors=True)
     os.makedirs(os.path.join(base, "dll"))
-    plug, lib = os.path.join(base, "plug17.py"), os.path.join(base, "plug_lib.c")
+    layout = case.get("layout", "beside")
+    rec.cls("layout:" + layout)
+    libname = "lib/plug_lib.c" if layout == "lib" else "plug_lib.c"
+    if layout == "lib":
+        os.makedirs(os.path.join(base, "lib"))
+    plug, lib = os.path.join(base, "plug17.py"), os.path.join(base, libname)
     header = os.path.join(pkg, "sasmodels", "kernel_header.c")
-    state = {"k1": 1.5, "k2": 2.0, "k3": None, "zz": None, "rr_default": 20.0}
+    state = {"k1": 1.5, "k2": 2.0, "k3": None, "zz": None, "rr_default": 20.0, "libname": libname}
     clock = [1700000000]
     texts = {"plugin": [], "lib": [], "header": []}     # history of (text, state-fragment)
 
